@@ -6,9 +6,8 @@ import ast
 from ..origin import OriginAnalysis
 from ..deps import DepAnalysis, clean
 from . import layer_folds as lf
-from ..peval import Evaluator, Model, Unsupported, RaisedInModel
-from ..source import norm, const_value, walk_no_nested, FuncInfo
-from .common import is_name, params, returns_of, calls_in, bind_call
+from ..source import norm, walk_no_nested
+from .common import is_name
 
 EXPLANATION = "(R1) interprocedural provenance analysis (D3) from map, histogram1d, histogram2d, scatter and plot through every resolved callee: no store, del, in-place operator or mutating method reaches an object that may alias a caller's argument (ax/fig and the matplotlib norm autoscaling are named exemptions); tuples, zip/enumerate/items keep positions apart; (R2) parse_layer, Layer.update, Layer.copy and the component views interpreted over {unset, falsy, set} x {unset, set} for every option field jointly and one field at a time: layer value wins unless None, extra options merged, result distinct with its own dictionaries; get_norm over norm kinds; every entry point hands each call-level option to parse_layer under its own name (dependence analysis D4 into parse_layer's parameters); (R3) no module-level mutable state of plot/ or core/layer.py is written; (R4) a call-level option (incl. **kwargs) reaches library calls and comparisons only through the merged layer (D4 with relabelling at parse_layer)."
 NOT_DECIDED = 'what matplotlib draws; equality of the returned data as numbers (follows from R1/R3 + determinism of the kernels)'
